@@ -906,10 +906,12 @@ def run(ctx):
     ex = exhaustive_cases(ctx.n(2, 3))
     ctx.hist("exhaustive_small_tables", sum(len(c["variants"]) for c in ex))
     evaluate(ctx, ex)
-    n = ctx.n(1500, 30000)
+    n = ctx.n(1200, 30000)
     batch = 120
     done = 0
-    while done < n and not ctx.out_of_time():
+    import time
+    soft = None if (ctx.tier == "thorough" or ctx.escalated) else ctx.t0 + 120      # keep the quick tier near two minutes on a busy machine
+    while done < n and not ctx.out_of_time() and not (soft and time.time() > soft and done >= 360):
         k = min(batch, n - done)
         evaluate(ctx, [L.gen_case(ctx.rng) for _ in range(k)])
         done += k
